@@ -37,10 +37,6 @@ abbrev PRes := Option (Expr × Toks)
 @[match_pattern] def P (x : Punct) (g : Bool) : LTok := ⟨.p x, g⟩
 @[match_pattern] def K (k : Kw) (g : Bool) : LTok := ⟨.kw k, g⟩
 
-def Kw.isNodeType : Kw → Bool
-  | .node | .text | .comment | .pi => true
-  | _ => false
-
 /-- the name a token spells where a name is expected -/
 def nameTok (c : Cfg) : Tok → Option Chars
   | .ncname s => some s
